@@ -333,6 +333,8 @@ struct Ctx<'a> {
     w: &'a C17World,
     pol: Policy,
     model: Model,
+    /// serial of the key object stored for each rank (a replaced entry keeps its first key, as in BTreeMap)
+    kser: BTreeMap<u32, u32>,
     next_val: u64,
     log: LogHash,
     // local counters, flushed to Stats after the run
@@ -354,6 +356,15 @@ impl<'a> Ctx<'a> {
     fn pred(&self, id: u32) -> Option<(u32, u64)> {
         let rk = self.rank(id);
         self.model.range(..rk).next_back().map(|(_, v)| *v)
+    }
+    /// the returned key must be the stored key object, not a look-alike (probe, or a replaced duplicate)
+    fn stored(&self, k: &K, opi: usize, what: &str) -> Result<(), Fail> {
+        if k.sane() && self.kser.get(&self.rank(k.id)) == Some(&k.serial) {
+            Ok(())
+        } else {
+            let (id, ser, want) = (k.id, k.serial, self.kser.get(&self.rank(k.id)).cloned());
+            fail("wrong_key_object", || format!("op #{} {}: returned key K{} is object #{} but the container stores object {:?} for it", opi, what, id, ser, want))
+        }
     }
     fn fresh_val(&mut self) -> u64 {
         self.next_val += 1;
@@ -458,8 +469,10 @@ fn exec_map(cx: &mut Ctx, t: &mut Map, ops: &[Op], base: usize) -> Result<(), Fa
             Op::Insert(id) => {
                 let val = cx.fresh_val();
                 let (k, v) = (K::new(*id), V::new(val));
+                let ks = k.serial;
                 let old = heap::with_policy(pol, || t.insert(k, v));
                 let want = cx.model.insert(cx.rank(*id), (*id, val)).map(|x| x.1);
+                cx.kser.entry(cx.rank(*id)).or_insert(ks);
                 let got = old.as_ref().map(|v| v.val);
                 cx.log.add(got.unwrap_or(u64::MAX));
                 if got != want {
@@ -479,6 +492,7 @@ fn exec_map(cx: &mut Ctx, t: &mut Map, ops: &[Op], base: usize) -> Result<(), Fa
                 };
                 let got = heap::with_policy(pol, || t.remove(&probe));
                 let want = cx.model.remove(&cx.rank(*id)).map(|x| x.1);
+                cx.kser.remove(&cx.rank(*id));
                 let g = got.as_ref().map(|v| v.val);
                 cx.log.add(g.unwrap_or(u64::MAX));
                 if g != want {
@@ -550,10 +564,14 @@ fn exec_map(cx: &mut Ctx, t: &mut Map, ops: &[Op], base: usize) -> Result<(), Fa
             }
             Op::FindKey(id) => {
                 let probe = K::new(*id);
-                let got = heap::with_policy(pol, || t.find_key(&probe)).map(|k| (k.id, k.sane()));
+                let gk = heap::with_policy(pol, || t.find_key(&probe));
+                let got = gk.map(|k| (k.id, k.sane()));
                 let want = cx.model.get(&cx.rank(*id)).map(|x| (x.0, true));
                 if got != want {
                     return fail("wrong_return", || format!("op #{} find_key(K{}): returned {:?}, reference {:?}", opi, id, got, want));
+                }
+                if let Some(k) = gk {
+                    cx.stored(k, opi, "find_key")?;
                 }
             }
             Op::Next(id) | Op::Prev(id) => {
@@ -569,24 +587,34 @@ fn exec_map(cx: &mut Ctx, t: &mut Map, ops: &[Op], base: usize) -> Result<(), Fa
                     let s = show_kv(got);
                     return fail("wrong_neighbour", || format!("op #{} {}(K{}): returned {}, reference {:?}", opi, if is_next { "next" } else { "prev" }, id, s, want));
                 }
+                if let Some((k, _)) = got {
+                    cx.stored(k, opi, "next/prev")?;
+                }
             }
             Op::Min | Op::Max => {
                 let is_min = matches!(op, Op::Min);
-                let got = heap::with_policy(pol, || if is_min { t.min() } else { t.max() }).map(|k| k.id);
+                let gk = heap::with_policy(pol, || if is_min { t.min() } else { t.max() });
+                let got = gk.map(|k| k.id);
                 let want = if is_min { cx.model.values().next() } else { cx.model.values().next_back() }.map(|x| x.0);
                 if got != want {
                     return fail("wrong_return", || format!("op #{} {}: returned {:?}, reference {:?}", opi, if is_min { "min" } else { "max" }, got, want));
+                }
+                if let Some(k) = gk {
+                    cx.stored(k, opi, "min/max")?;
                 }
             }
             Op::Clear => {
                 heap::with_policy(pol, || t.clear());
                 cx.model.clear();
+                cx.kser.clear();
             }
             Op::Extend(ids) => {
                 let mut items = Vec::new();
                 for id in ids {
                     let val = cx.fresh_val();
-                    items.push((K::new(*id), V::new(val)));
+                    let k = K::new(*id);
+                    cx.kser.entry(cx.rank(*id)).or_insert(k.serial);
+                    items.push((k, V::new(val)));
                     cx.model.insert(cx.rank(*id), (*id, val));
                 }
                 heap::with_policy(pol, || t.extend(items));
@@ -639,6 +667,7 @@ fn exec_map(cx: &mut Ctx, t: &mut Map, ops: &[Op], base: usize) -> Result<(), Fa
                 let old = std::mem::replace(t, fresh);
                 consume_map(cx, old, pattern, *take as usize, opi)?;
                 cx.model.clear();
+                cx.kser.clear();
             }
         }
         check_len_map(cx, t, opi)?;
@@ -786,8 +815,11 @@ fn exec_set(cx: &mut Ctx, t: &mut Set, ops: &[Op], base: usize) -> Result<(), Fa
         i += 1;
         match op {
             Op::Insert(id) => {
-                let got = heap::with_policy(pol, || t.insert(K::new(*id)));
+                let k = K::new(*id);
+                let ks = k.serial;
+                let got = heap::with_policy(pol, || t.insert(k));
                 let want = cx.model.insert(cx.rank(*id), (*id, 0)).is_none();
+                cx.kser.entry(cx.rank(*id)).or_insert(ks);
                 cx.log.add(got as u64);
                 if got != want {
                     return fail("wrong_return", || format!("op #{} set.insert(K{}): returned {}, reference {}", opi, id, got, want));
@@ -797,6 +829,7 @@ fn exec_set(cx: &mut Ctx, t: &mut Set, ops: &[Op], base: usize) -> Result<(), Fa
                 let probe = K::new(*id);
                 let got = heap::with_policy(pol, || t.remove(&probe));
                 let want = cx.model.remove(&cx.rank(*id)).is_some();
+                cx.kser.remove(&cx.rank(*id));
                 cx.log.add(got as u64);
                 if got != want {
                     return fail("wrong_return", || format!("op #{} set.remove(K{}): returned {}, reference {}", opi, id, got, want));
@@ -813,20 +846,28 @@ fn exec_set(cx: &mut Ctx, t: &mut Set, ops: &[Op], base: usize) -> Result<(), Fa
             }
             Op::FindKey(id) => {
                 let probe = K::new(*id);
-                let got = heap::with_policy(pol, || t.find(&probe)).map(|k| k.id);
+                let gk = heap::with_policy(pol, || t.find(&probe));
+                let got = gk.map(|k| k.id);
                 let want = cx.model.get(&cx.rank(*id)).map(|x| x.0);
                 if got != want {
                     return fail("wrong_return", || format!("op #{} set.find(K{}): returned {:?}, reference {:?}", opi, id, got, want));
+                }
+                if let Some(k) = gk {
+                    cx.stored(k, opi, "set.find")?;
                 }
             }
             Op::Next(id) | Op::Prev(id) => {
                 let probe = K::new(*id);
                 let is_next = matches!(op, Op::Next(_));
-                let got = heap::with_policy(pol, || if is_next { t.next(&probe) } else { t.prev(&probe) }).map(|k| (k.id, k.sane()));
+                let gk = heap::with_policy(pol, || if is_next { t.next(&probe) } else { t.prev(&probe) });
+                let got = gk.map(|k| (k.id, k.sane()));
                 let want = if is_next { cx.succ(*id) } else { cx.pred(*id) }.map(|x| (x.0, true));
                 cx.log.add(want.map(|x| x.0 as u64).unwrap_or(u64::MAX));
                 if got != want {
                     return fail("wrong_neighbour", || format!("op #{} set.{}(K{}): returned {:?}, reference {:?}", opi, if is_next { "next" } else { "prev" }, id, got, want));
+                }
+                if let Some(k) = gk {
+                    cx.stored(k, opi, "set.next/prev")?;
                 }
             }
             Op::Min | Op::Max => {
@@ -840,11 +881,14 @@ fn exec_set(cx: &mut Ctx, t: &mut Set, ops: &[Op], base: usize) -> Result<(), Fa
             Op::Clear => {
                 heap::with_policy(pol, || t.clear());
                 cx.model.clear();
+                cx.kser.clear();
             }
             Op::Extend(ids) => {
                 let mut items = Vec::new();
                 for id in ids {
-                    items.push(K::new(*id));
+                    let k = K::new(*id);
+                    cx.kser.entry(cx.rank(*id)).or_insert(k.serial);
+                    items.push(k);
                     cx.model.insert(cx.rank(*id), (*id, 0));
                 }
                 heap::with_policy(pol, || t.extend(items));
@@ -935,6 +979,7 @@ fn exec_set(cx: &mut Ctx, t: &mut Set, ops: &[Op], base: usize) -> Result<(), Fa
                 }
                 heap::with_policy(pol, || drop(it));
                 cx.model.clear();
+                cx.kser.clear();
             }
         }
         if t.len() != cx.model.len() || t.is_empty() != cx.model.is_empty() {
@@ -1025,7 +1070,7 @@ impl World for C17World {
         ledger_reset();
         let cs = Arc::new(CmpState { rank: self.rank.clone(), calls: AtomicU64::new(0), garbage: AtomicU64::new(0) });
         *CURRENT_CMP.lock().unwrap_or_else(|e| e.into_inner()) = Some(cs.clone());
-        let mut cx = Ctx { w: self, pol, model: Model::new(), next_val: 0, log: LogHash::new(), c: BTreeMap::new(), shapes: vec![], held_max: 0 };
+        let mut cx = Ctx { w: self, pol, model: Model::new(), kser: BTreeMap::new(), next_val: 0, log: LogHash::new(), c: BTreeMap::new(), shapes: vec![], held_max: 0 };
         let live0 = heap::live();
         let res: Result<Result<(), Fail>, String> = {
             let r = catch_unwind(AssertUnwindSafe(|| {
